@@ -449,6 +449,10 @@ int main(int argc, char **argv)
         {"keep+seg1+grown100", H({"set_clear(false)", "set_sieve_size(1)", "gen(100)"}), 2, 3},
         {"keep+seg1+grown16512", H({"set_clear(false)", "set_sieve_size(1)", "gen(16512)"}), 2, 3},
         {"seg1+iter15", H({"set_sieve_size(1)", "it=iterator(0)", "it.next*15"}), 2, 3}, // a live iterator whose index is beyond the initial cache
+        // a live iterator far enough ahead (46 primes) that ONE doubling of the cleared 10-prime cache does not reach its position again:
+        // re-growth after clear()/auto-clear needs several rounds (added after seeded change C33 escaped the 15-prime root)
+        {"seg1+iter46", H({"set_sieve_size(1)", "it=iterator(0)", "it.next*15", "it.next*15", "it.next*15", "it.next"}), 2, 2},
+        {"keep+iter46", H({"set_clear(false)", "it=iterator(0)", "it.next*15", "it.next*15", "it.next*15", "it.next"}), 2, 2},
     };
     std::map<std::string, std::string> shape_memo; // crash shape -> signature
     std::map<std::string, std::string> shape_detail;
